@@ -894,8 +894,18 @@ func (m *c42Machine) checkInvariants() {
 		if blk <= final {
 			continue
 		}
-		if _, ok := lb.index[hsh]; !ok {
+		id, ok := lb.index[hsh]
+		if !ok {
 			m.fail("included tx %s (block %d, finalized %d) is not retained in the limbo", m.known[hsh], blk, final)
+		}
+		// retention until finality of the *canonical* block needs the limbo to track the tx under a block
+		// that is not older than it (crash-resurrected stale copies are exempt)
+		if !m.crashed {
+			for rec, ids := range lb.groups {
+				if _, in := ids[id]; in && rec < blk {
+					m.fail("included tx %s sits in canonical block %d but the limbo tracks it under block %d: it would be dropped before its block is final", m.known[hsh], blk, rec)
+				}
+			}
 		}
 	}
 	// a pooled tx is not at the same time in the limbo (after an abrupt restart deleted
@@ -1583,6 +1593,12 @@ func (m *c42Machine) actReorg() {
 			wasInLimbo++
 		}
 	}
+	// retained txs re-included one block later than before: first-class scenario
+	later := wasInLimbo > 0 && depth == 1 && rapid.Bool().Draw(rt, "reincludeLater")
+	if later {
+		length, lateAt = 2, 2
+		m.c.Class("reorg:reinclude-later")
+	}
 	for bi := 1; bi <= length; bi++ {
 		var txs []*types.Transaction
 		var included [c42NAcct]int
@@ -1598,6 +1614,9 @@ func (m *c42Machine) actReorg() {
 			for i := range per {
 				sort.Slice(per[i], func(a, b int) bool { return per[i][a].Nonce() < per[i][b].Nonce() })
 				k := rapid.IntRange(0, len(per[i])).Draw(rt, "reinclude")
+				if later {
+					k = len(per[i])
+				}
 				for j := 0; j < k; j++ {
 					if per[i][j].Nonce() != cur.st[i].nonce+uint64(j) {
 						break
@@ -1996,6 +2015,126 @@ func c42Run(t *testing.T, rt *rapid.T, st *vs.S) {
 		}
 		return map[string]any{"steps": steps, "evictions": m.evictions, "limbo_round_trips": m.limboTrips, "abrupt_restarts_2acc": m.abruptMulti, "trace_head": tr}
 	})
+}
+
+// c42OpenRun writes an arbitrary set of leftovers (what a crash may resurrect: nonces
+// below, at and above the state nonce, gaps, duplicates, overdrafts, low tips, more
+// data than the cap) straight into a fresh queue store and opens a pool on it. The
+// content must be what the documented cleanup rules leave, and all invariants hold.
+func c42OpenRun(t *testing.T, rt *rapid.T, st *vs.S) {
+	c := st.Case()
+	root, err := os.MkdirTemp(c42ScratchBase(), fmt.Sprintf("verif-c42-%d-", os.Getpid()))
+	if err != nil {
+		rt.Fatalf("VERIF-HARNESS-BUG: %v", err)
+	}
+	defer os.RemoveAll(root)
+	m := &c42Machine{rt: rt, t: t, st: st, c: c, root: root, known: map[common.Hash]*c42Tx{}, limboSet: map[common.Hash]bool{},
+		everIncl: map[common.Hash]map[uint64]bool{}, tornOK: map[common.Hash]bool{}}
+	for i := range m.byNonce {
+		m.byNonce[i] = map[uint64][]*c42Tx{}
+	}
+	slot1 := uint64(4096 + 2*(blobSize+int(txBlobOverhead)))
+	m.datacap = slot1 * uint64(rapid.SampledFrom([]int{2, 4, 8, 8}).Draw(rt, "datacapSlots"))
+	m.bump = 100
+	m.gasTip = rapid.SampledFrom([]uint64{1, 1, 5}).Draw(rt, "gasTip")
+	chain := &c42Chain{config: params.MergedTestChainConfig, blocks: map[common.Hash]*c42Block{}}
+	var gst [c42NAcct]c42AcctState
+	for i := range gst {
+		gst[i] = c42AcctState{nonce: uint64(rapid.SampledFrom([]int{0, 2, 5}).Draw(rt, "stateNonce")), balance: c42BigBalance.Clone()}
+	}
+	// leftovers
+	var lists c42Lists
+	var all []*c42Tx
+	for i := 0; i < c42NAcct; i++ {
+		n := rapid.SampledFrom([]int{0, 1, 2, 3, 4}).Draw(rt, "entries")
+		for j := 0; j < n; j++ {
+			off := rapid.SampledFrom([]int{-2, -1, 0, 0, 1, 1, 2, 3}).Draw(rt, "nonceOffset")
+			if int(gst[i].nonce)+off < 0 {
+				off = 0
+			}
+			nonce := uint64(int(gst[i].nonce) + off)
+			x := c42MakeTx(i, nonce, rapid.SampledFrom(c42Tips).Draw(rt, "tip")+uint64(j), rapid.SampledFrom(c42FeeCaps).Draw(rt, "feeCap")+50,
+				rapid.SampledFrom(c42BlobCaps).Draw(rt, "blobCap"), 21000, uint256.NewInt(uint64(100+j)), []int{rapid.IntRange(0, c42NBlobs-1).Draw(rt, "blob")})
+			m.known[x.hash] = x
+			all = append(all, x)
+			lists[i] = append(lists[i], c42EntryOf(x, m.slotSizeOf(x)))
+		}
+		if len(lists[i]) > 0 && rapid.IntRange(0, 3).Draw(rt, "tightBalance") == 0 {
+			// balance covering only some of the entries
+			sum := new(uint256.Int)
+			k := rapid.IntRange(1, len(lists[i])).Draw(rt, "affordable")
+			for _, e := range lists[i][:k] {
+				sum.Add(sum, e.cost)
+			}
+			gst[i].balance = sum
+		}
+	}
+	chain.genesis = chain.newBlock(nil, nil, rapid.SampledFrom(c42BaseFees).Draw(rt, "baseFee"), rapid.SampledFrom(c42Excess).Draw(rt, "excess"), gst)
+	chain.head, chain.final = chain.genesis, chain.genesis
+	m.chain = chain
+	m.dir = m.newDir()
+	qdir := filepath.Join(m.dir, pendingTransactionStore)
+	if err := os.MkdirAll(qdir, 0o700); err != nil {
+		rt.Fatalf("VERIF-HARNESS-BUG: %v", err)
+	}
+	store, err := billy.Open(billy.Options{Path: qdir}, newSlotterEIP7594(params.BlobTxMaxBlobs), nil)
+	if err != nil {
+		rt.Fatalf("VERIF-HARNESS-BUG: billy.Open: %v", err)
+	}
+	// shuffled write order
+	perm := rapid.Permutation(all).Draw(rt, "writeOrder")
+	for _, x := range perm {
+		if _, err := store.Put(x.enc); err != nil {
+			rt.Fatalf("VERIF-HARNESS-BUG: billy.Put: %v", err)
+		}
+	}
+	store.Close()
+	m.tracef("leftovers %s state %s gasTip=%d datacap=%d", lists, c42StateString(gst), m.gasTip, m.datacap)
+	if err := m.open(); err != nil {
+		m.fail("Init on leftovers failed: %v", err)
+	}
+	defer func() { m.pool.Close() }()
+	m.crashed = true
+	got := m.lists()
+	m.tracef("after Init: pool %s", got)
+	m.checkInvariants()
+	m.checkViews(true)
+	var want c42Lists
+	ambiguous, interesting := false, false
+	for i := range lists {
+		kept, below, amb := c42RecheckModel(lists[i], gst[i].nonce, gst[i].balance)
+		ambiguous = ambiguous || amb
+		want[i] = c42TipModel(kept, uint256.NewInt(m.gasTip))
+		if len(below) > 0 && len(kept) < len(lists[i])-len(below) {
+			interesting = true
+			c.Class("open:below-and-dropped-tail")
+		}
+		if len(want[i]) < len(lists[i]) {
+			c.Class("open:dropped-some")
+		}
+	}
+	want, _, ok := c42EvictModel(want, m.datacap, m.basefee(), m.blobfee())
+	switch {
+	case ambiguous:
+		c.Class("open:duplicate-nonce-unspecified")
+	case !ok:
+		c.Class("evict:tie-unspecified")
+	default:
+		for i := range want {
+			if !c42HashesEqual(want.hashes(i), got.hashes(i)) {
+				m.fail("Init on leftovers: a%d holds %v, the documented cleanup rules give %v", i, got.hashes(i), want.hashes(i))
+			}
+		}
+	}
+	c.NonTrivial(interesting || len(all) >= 4, m.traceString())
+	c.Sample(interesting, func() any { return map[string]any{"trace": m.trace} })
+}
+
+// TestVerifC42Open opens pools on arbitrary leftover stores.
+func TestVerifC42Open(t *testing.T) {
+	c42Material(t)
+	st := vs.New("C42", t)
+	vs.Check(t, 0.5, func(rt *rapid.T) { c42OpenRun(t, rt, st) })
 }
 
 // TestVerifC42Machine runs random histories with restarts against a real BlobPool.
